@@ -146,6 +146,35 @@ func runC03(c *Check) {
 	})
 	c.Ob("R3.5", "stored result sized against the configured amount", len(sizeGates) > 0, p.Pos(sa.Pos()),
 		"a rejecting branch compares len(Remaining)+len(Available) of the loaded result with params.SampleAmount (a stored result with fewer coordinates than configured cannot report success)")
+	// ... and on every path: from the successful decode of a stored result no success return is
+	// reachable without passing that size test (a fast path in front of it would trust a result
+	// sampled under a smaller configured amount)
+	var unm *ssa.Call
+	for _, b := range sa.Blocks {
+		for _, ins := range b.Instrs {
+			if g, ok := ins.(*ssa.Call); ok && calleeObj(&g.Call) != nil && calleeObj(&g.Call).Name() == "Unmarshal" {
+				unm = g
+			}
+		}
+	}
+	if unm != nil {
+		sizeBlocks := map[*ssa.BasicBlock]bool{}
+		for _, b := range sa.Blocks {
+			if ifi, ok := b.Instrs[len(b.Instrs)-1].(*ssa.If); ok {
+				sl := backSlice(ifi.Cond, SliceOpt{CallArgs: true})
+				if sl.HasFieldNamed("", "SampleAmount") && sl.HasFieldNamed("SamplingResult", "Remaining") && sl.HasFieldNamed("SamplingResult", "Available") {
+					sizeBlocks[b] = true
+				}
+			}
+		}
+		okS, _ := errEdgesOfCall(sa, unm)
+		succAll := blocksOfReturns(successReturns(sa))
+		for _, s := range okS {
+			res := gateWalkOpts(p, sa, succAll, nil, s, sizeBlocks)
+			c.Ob("R3.5", "no success on a stored result before its size test", len(sizeBlocks) > 0 && !res.Reached, p.Pos(unm.Pos()),
+				"after a stored result was decoded, every path to a success return passes the comparison of its size with params.SampleAmount", res.Witness...)
+		}
+	}
 	// the persisted result carries this session's failures: Remaining is reassigned before the result is marshalled
 	for _, b := range sa.Blocks {
 		for idx, ins := range b.Instrs {
